@@ -42,16 +42,23 @@ def forced_order(root, rels):
 def correlate_spy(log):
     import ford.sourceform as sf
     orig = sf.FortranCodeUnit.correlate
+    orig_bd = sf.FortranBlockData.correlate
 
     def spy(self, project):
         if type(self) in (sf.FortranModule, sf.FortranProgram):
             log.append(self.name.lower())
         return orig(self, project)
+
+    def spy_bd(self, project):
+        log.append(self.name.lower())
+        return orig_bd(self, project)
     sf.FortranCodeUnit.correlate = spy
+    sf.FortranBlockData.correlate = spy_bd
     try:
         yield
     finally:
         sf.FortranCodeUnit.correlate = orig
+        sf.FortranBlockData.correlate = orig_bd
 
 
 def ident(obj):
@@ -59,7 +66,7 @@ def ident(obj):
     import ford.sourceform as sf
     par = getattr(obj, "parent", None)
     for _ in range(12):
-        if par is None or isinstance(par, (sf.FortranModule, sf.FortranProgram, sf.FortranSourceFile)):
+        if par is None or isinstance(par, (sf.FortranModule, sf.FortranProgram, sf.FortranBlockData, sf.FortranSourceFile)):
             break
         par = getattr(par, "parent", None)
     return (str(getattr(par, "name", "?")).lower(), str(getattr(obj, "name", "?")).lower())
@@ -130,8 +137,26 @@ def observe(units, files, where, unit_order):
         if "Error parsing" in p._verif_log or "ERROR" in p._verif_log:
             problems.append("parse: " + p._verif_log[-400:])
         byname = {u["name"].lower(): u for u in units}
-        obs_units, refs, nested = [], [], []
-        parsed = list(p.modules) + list(p.programs)
+        obs_units, refs, nested, binds = [], [], [], []
+
+        def note_binds(scope, uses, unit, cpath):
+            """what each USEd name of the scope was matched with (scope.uses after correlate: the
+            module objects, link objects, or the names left as strings)"""
+            got = {}
+            for x in getattr(scope, "uses", None) or []:
+                if isinstance(x, str):
+                    got.setdefault(x.lower(), (0, ""))
+                elif isinstance(x, sf.ExternalModule):
+                    got.setdefault(x.name.lower(), (2, x.name.lower()))
+                else:
+                    got.setdefault(x.name.lower(), (1, x.name.lower()))
+            for t in sorted({x["target"].lower() for x in uses}):
+                if t not in got:
+                    problems.append(f"USE of {t} in {unit}/{'/'.join(cpath)} is not in the scope's uses")
+                    continue
+                binds.append({"unit": unit, "path": cpath, "target": t, "kind": got[t][0], "name": got[t][1],
+                              "intr": all(x["prefix"] == "intrinsic" for x in uses if x["target"].lower() == t)})
+        parsed = list(p.modules) + list(p.programs) + list(p.blockdata)
         if [m.name.lower() for m in p.modules] != [n.lower() for n in unit_order if byname[n.lower()]["unit"] == "module"]:
             problems.append("file order not honoured: %s" % [m.name for m in p.modules])
         for m in parsed:
@@ -143,6 +168,7 @@ def observe(units, files, where, unit_order):
             pub = [sorted((k, ident(v)) for k, v in getattr(m, t).items()) for t in PUB] if is_mod else [[], [], [], []]
             al = [sorted((k, ident(v)) for k, v in getattr(m, t).items()) for t in ALL]
             obs_units.append({"name": m.name.lower(), "is_module": is_mod, "pub": pub, "all": al})
+            note_binds(m, u["uses"], m.name.lower(), [])
             # sanity of the projection: every table value is the object of the right kind, and the
             # own declarations have the permission the abstract program says (C04's domain)
             for t in (PUB if is_mod else []) + ALL:
@@ -190,6 +216,7 @@ def observe(units, files, where, unit_order):
                     continue
                 nested.append({"unit": m.name.lower(), "path": cpath,
                                "all": [sorted((k, ident(v)) for k, v in getattr(sc, t).items()) for t in ALL]})
+                note_binds(sc, nd["uses"], m.name.lower(), cpath)
                 local = {v.name.lower(): v for v in list(getattr(sc, "variables", [])) + list(getattr(sc, "args", []))}
                 for r in nd["refs"]:
                     if r["what"] == "call":
@@ -205,7 +232,8 @@ def observe(units, files, where, unit_order):
         obs_units.sort(key=lambda o: o["name"])
         refs.sort(key=lambda f: (f["unit"], f.get("path", []), f["cls"], f["id"]))
         nested.sort(key=lambda q: (q["unit"], q["path"]))
-        return {"units": obs_units, "refs": refs, "nested": nested}, log, problems
+        binds.sort(key=lambda b: (b["unit"], b["path"], b["target"]))
+        return {"units": obs_units, "refs": refs, "nested": nested, "binds": binds}, log, problems
 
 
 def html_refs(units, files):
